@@ -328,13 +328,15 @@ def _post_dcb(engine, st, ctx, out):
         clock = st.ghost.get("clock_reads", [])
         sl = [e for e in pol if e.meth == "sleep_time"]
         cl.append(("retry: the returned future is not resolved before the final attempt", "PC", z3.BoolVal(not res), ["C05", "C02"]))
+        cl.append(("retry happens only when the policy answered: a policy method that raises ends retrying with the callable's own outcome", "PC",
+                   z3.BoolVal(all(getattr(e, "exc", None) is None for e in pol) and len(sl) == 1), ["C05", "C01", "C03", "C18"]))
         cl.append(("retry: the finished attempt's job is replaced by exactly one idle job (queue gauge balanced)", "PC",
                    z3.And(z3.BoolVal(len(pops) == 1 and len(apps) == 1 and len(qdec) == 1 and len(qinc) == 1), pops[0].args[0] == ctx["J0"].t if pops else False), ["C05", "C20", "C12"]))
         cl.append(("retry: the new job carries the same future, callable, arguments, policy and attempt count, and no delegate", "PC",
                    z3.And(st.get("future", nj) == ctx["fut"].t, st.get("fn", nj) == ctx["fn"], st.get("args", nj) == ctx["args"],
                           st.get("kwargs", nj) == ctx["kwargs"], st.get("policy", nj) == ctx["policy"], st.get("attempt", nj) == ctx["attempt"],
                           Val.is_none(st.get("RetryJob.delegate_future", nj)), st.get("old_delegate", nj) == ctx["d"].t), ["C05", "C01"]))
-        if sl and clock:
+        if sl and clock and sl[0].ret is not None:
             w = st.get("when", nj)
             wnum = z3.If(Val.is_intv(w), z3.ToReal(Val.i(w)), Val.r(w))
             slv = sl[0].ret
@@ -360,7 +362,7 @@ def _post_dcb(engine, st, ctx, out):
 
 
 UNITS.append(Unit("RetryExecutor._delegate_callback", "retry.RetryExecutor._delegate_callback",
-                  ["C05", "C01", "C02", "C03", "C06", "C12", "C18", "C20"], _setup_dcb, _post_dcb, cfg=_cfg_dcb, self_cls="RetryExecutor"))
+                  ["C05", "C01", "C02", "C03", "C04", "C06", "C12", "C18", "C20"], _setup_dcb, _post_dcb, cfg=_cfg_dcb, self_cls="RetryExecutor"))
 
 
 # ---- ExceptionRetryPolicy.__init__: the policy's parameters are exactly the keyword arguments, defaults otherwise -------------
@@ -412,3 +414,26 @@ for v in ("defaults", "one class", "list of classes"):
 
 REPLAYS = [("C03", "RetryExecutor._delegate_callback", "replay/c03_retry_delegate_cancelled_outside.py"), ("C06", "RetryExecutor._delegate_callback", "replay/c03_retry_delegate_cancelled_outside.py"),
            ("C12", "RetryExecutor._delegate_callback", "replay/c12_retry_cancel_inflight_leak.py"), ("C20", "RetryExecutor._delegate_callback", "replay/c12_retry_cancel_inflight_leak.py")]
+
+
+# ---- RetryPolicy (the base class custom policies derive from): never retries, no delay -----------------------------------------------
+def _setup_base_policy(engine, st):
+    oid = st.alloc("RetryPolicy")
+    st.assume(cls_of(z3.IntVal(oid)) == engine.tag("RetryPolicy"))
+    me = Z(ref(oid), INST("RetryPolicy"))
+    return [me, sym_val(engine, st, "int", "attempt"), sym_val(engine, st, "future", "future")], {}, {}
+
+
+def _post_base_policy(meth):
+    def post(engine, st, ctx, out):
+        ev = [e for e in st.trace if e.kind in ("call", "resolve", "write", "block")]
+        if meth == "should_retry":
+            return [("the base policy never retries: should_retry is False for every attempt and outcome, without touching the future", "PC",
+                     z3.BoolVal(out is False and not ev), ["C05"])]
+        return [("the base policy asks for no delay: sleep_time is 0, without touching the future", "PC",
+                 z3.BoolVal((out == 0 and out is not False) and not ev), ["C05"])]
+    return post
+
+
+UNITS.append(Unit("RetryPolicy.should_retry", "retry.RetryPolicy.should_retry", ["C05"], _setup_base_policy, _post_base_policy("should_retry"), cfg=lambda: make_cfg(concurrent=False), self_cls="RetryPolicy"))
+UNITS.append(Unit("RetryPolicy.sleep_time", "retry.RetryPolicy.sleep_time", ["C05"], _setup_base_policy, _post_base_policy("sleep_time"), cfg=lambda: make_cfg(concurrent=False), self_cls="RetryPolicy"))
